@@ -29,6 +29,7 @@ InvLeading        == Done => ReqLeadingIsMethodOrder(m, n, o, S)
 InvSpacing        == Done => ReqSpacing(m, n, o, S)
 InvEvalFirst      == ReqEvalFirst(m, n, o)
 InvEnoughSteps    == ReqEnoughSteps(m, n, o)
+InvOffsets        == ReqAdmissibleOffsets(m, n, o)
 
 ExpSum == LET e == Exps(m, n, o) IN RSumFun([j \in 1..Len(e) |-> R(e[j])], 1, Len(e))[1]
 ExactOK == NumTerms(m, n, o) <= 4 /\ ExpSum <= 16
